@@ -107,3 +107,16 @@ Proof.
   { rewrite existsb_app. cbn [existsb]. rewrite N.eqb_refl, orb_true_r. reflexivity. }
   rewrite E, (after_last_app DOT stem ext Hd), Hl, Ha. reflexivity.
 Qed.
+
+(* the byte-sniffing variant: identical without a sniffed type, the table still wins, an unknown extension gets the
+   sniffed type *)
+Lemma content_type_b_none lower tbl x :
+  ooxml_content_type_b lower tbl None x = ooxml_content_type lower tbl x
+  /\ xlsx_content_type_b lower tbl None x = xlsx_content_type lower tbl x.
+Proof. split; reflexivity. Qed.
+
+Lemma ooxml_content_type_b_spec lower tbl sn pre ext :
+  existsb (N.eqb DOT) ext = false ->
+  ooxml_content_type_b lower tbl sn (pre ++ DOT :: ext)
+  = match assoc (lower ext) tbl with Some v => v | None => match sn with Some c => c | None => s "image/" ++ lower ext end end.
+Proof. intro Hd. unfold ooxml_content_type_b. rewrite (after_last_app DOT pre ext Hd). reflexivity. Qed.
